@@ -71,6 +71,20 @@ func sizeShape(n int) string {
 	}
 }
 
+// diffAt is the index of the first differing byte (or the shorter length).
+func diffAt(a, b []byte) int {
+	n := len(a)
+	if len(b) < n {
+		n = len(b)
+	}
+	for i := 0; i < n; i++ {
+		if a[i] != b[i] {
+			return i
+		}
+	}
+	return n
+}
+
 func clip(b []byte) []byte {
 	if len(b) > 16 {
 		return b[:16]
@@ -162,7 +176,7 @@ func JudgeStep(e *Exec, out *Outcome, pre *PreState, shape string, coords [][2]i
 			if en.Length != len(want) {
 				add("file/payload/length-word-differs/"+who+"-chunk-after-"+shape, "chunk (%d,%d): length word %d, last written %d bytes", en.X, en.Z, en.Length, len(want))
 			} else if !bytes.Equal(en.Data, want) {
-				add("file/payload/content-differs/"+who+"-chunk-after-"+shape, "chunk (%d,%d): run [%d,+%d) holds %x.., last written %x..", en.X, en.Z, en.Start, en.Count, clip(en.Data), clip(want))
+				add("file/payload/content-differs/"+who+"-chunk-after-"+shape, "chunk (%d,%d): run [%d,+%d) holds %x.., last written %x.. (first difference at byte %d of %d)", en.X, en.Z, en.Start, en.Count, clip(en.Data), clip(want), diffAt(en.Data, want), len(want))
 			}
 		}
 		if seen != len(e.Model) {
@@ -256,7 +270,7 @@ func judgeRead(add func(string, string, ...any), who, shape string, x, z int, da
 	case len(data) != len(want):
 		add("store/ReadSector/length-differs/"+who+"-after-"+shape, "ReadSector(%d,%d) returned %d bytes, last written %d", x, z, len(data), len(want))
 	case !bytes.Equal(data, want):
-		add("store/ReadSector/content-differs/"+who+"-after-"+shape, "ReadSector(%d,%d) returned %x.., last written %x..", x, z, clip(data), clip(want))
+		add("store/ReadSector/content-differs/"+who+"-after-"+shape, "ReadSector(%d,%d) returned %x.., last written %x.. (first difference at byte %d of %d)", x, z, clip(data), clip(want), diffAt(data, want), len(want))
 	}
 }
 
